@@ -90,5 +90,6 @@ example : ∃ (o : Oracle) (p : Prog) (hist : List Input), (after o p 10 hist []
     or clause; DESIGN.md §11.6a) -/
 theorem line_skeletons : Skeletons.LineShape := Skeletons.line_shape
 theorem exec_skeletons : Skeletons.ExecShape := Skeletons.exec_shape
+theorem f_vm_vm_skeletons : Skeletons.F_vm_vmShape := Skeletons.f_vm_vm_shape
 
 end MtailVerif.C05
